@@ -505,7 +505,17 @@ namespace {
          impl::Parameter_list* list = c->iplist;      // (the vector may be reallocated below)
          const ipr::Parameter_list* ilist = c->plist;
          auto before = ilist->elements().size();
-         impl::Parameter* p = list->add_member(fresh_name(), some_type());
+         // names and types repeat as they do in programs: unnamed parameters all carry the empty identifier, and two parameters of one
+         // list often have the same type -- `(int, int)`, `(T x, T x2)`; none of this may affect position, home region or level
+         const ipr::Name* pname = &fresh_name();
+         const ipr::Type* ptype = &some_type();
+         switch ((before * 7 + counter) % 4) {
+         case 1: pname = &lexicon->get_identifier(u8""); break;
+         case 2: pname = &lexicon->get_identifier(u8""); ptype = &lexicon->int_type(); break;
+         case 3: if (before > 0) { pname = &ilist->elements().get(before - 1).name(); ptype = &ilist->elements().get(before - 1).type(); } break;
+         default: break;
+         }
+         impl::Parameter* p = list->add_member(*pname, *ptype);
          const ipr::Parameter& ip = *p;
          NodeEntry e { }; e.kind = NK::Parameter; e.param = &ip;
          std::string s = nname(key_of(ip), &e);
